@@ -62,4 +62,5 @@ type Profile struct {
 	BadKeyPct   int            `json:"bad_key_pct"`
 	NoSessPct   int            `json:"no_sess_pct"`
 	Drain       bool           `json:"drain"` // finish with TryLocks until refused on every name
+	StickySizePct int          `json:"sticky_size_pct"` // chance that a Lock/TryLock asks for the size the name was last granted with
 }
